@@ -908,7 +908,7 @@ def validate_trace(chk, module, cfgname, env_name, events, name):
     if rejected:
         return rejected[0]
     if res.violated:
-        if "Accepted" in (res.violated or "") or "ostcondition" in res.raw_tail:
+        if (res.violated or "").startswith("Postcondition"):
             return {"rejected_at": None, "event": None, "tlc": res.raw_tail[-800:]}
         raise ToolError("trace validation run failed: %s\n%s" % (res.violated, res.raw_tail))
     return None
@@ -938,7 +938,7 @@ def c16(chk, tier):
         return bytes(rnd.getrandbits(8) for _ in range(n)).hex()
     suites = [(k, d, a) for k in KEMS for d in (1, 2, 3) for a in (1, 2, 3, 65535)]
     if not thorough:
-        suites = [s for i, s in enumerate(suites) if (i + seed()) % 4 == 0] + [(32, 1, 65535), (18, 3, 2)]
+        suites = [s for i, s in enumerate(suites) if (i + seed()) % 5 == 0] + [(32, 1, 65535), (18, 3, 2)]
     nctx = 0
     for su in suites:
         kem, kdf, aead = su
